@@ -9,6 +9,39 @@ from .model import AnalysisError, Repo, kwarg
 from .tab import Valuation, evalf
 
 
+def normalize_test(expr: ast.AST) -> ast.AST:
+    """Behaviour-preserving spellings of the same test are mapped to one form:
+    len(X) > 0 / != 0 / >= 1  ->  X ;  len(X) == 0  ->  not X ;
+    S.find(x) != -1 / >= 0  ->  x in S ;  S.find(x) == -1 / < 0  ->  x not in S ;  S.count(x) > 0 -> x in S."""
+    if isinstance(expr, ast.Compare) and len(expr.ops) == 1:
+        left, op, right = expr.left, expr.ops[0], expr.comparators[0]
+        if isinstance(left, ast.Call) and isinstance(right, (ast.Constant, ast.UnaryOp)):
+            try:
+                rv = ast.literal_eval(right)
+            except Exception:
+                rv = None
+            fname = ast.unparse(left.func)
+            if fname == "len" and len(left.args) == 1 and isinstance(rv, int):
+                if (isinstance(op, ast.Gt) and rv == 0) or (isinstance(op, ast.NotEq) and rv == 0) or (isinstance(op, ast.GtE) and rv == 1):
+                    return left.args[0]
+                if (isinstance(op, ast.Eq) and rv == 0) or (isinstance(op, ast.Lt) and rv == 1):
+                    return ast.UnaryOp(op=ast.Not(), operand=left.args[0])
+            if isinstance(left.func, ast.Attribute) and left.func.attr in ("find", "count") and len(left.args) == 1 and isinstance(rv, int):
+                member = ast.Compare(left=left.args[0], ops=[ast.In()], comparators=[left.func.value])
+                absent = ast.Compare(left=left.args[0], ops=[ast.NotIn()], comparators=[left.func.value])
+                if left.func.attr == "find":
+                    if (isinstance(op, ast.NotEq) and rv == -1) or (isinstance(op, ast.GtE) and rv == 0) or (isinstance(op, ast.Gt) and rv == -1):
+                        return member
+                    if (isinstance(op, ast.Eq) and rv == -1) or (isinstance(op, ast.Lt) and rv == 0):
+                        return absent
+                else:
+                    if (isinstance(op, ast.Gt) and rv == 0) or (isinstance(op, ast.GtE) and rv == 1) or (isinstance(op, ast.NotEq) and rv == 0):
+                        return member
+                    if isinstance(op, ast.Eq) and rv == 0:
+                        return absent
+    return expr
+
+
 def bool_formula(expr: ast.AST | str, atom: Callable[[str, ast.AST], Any]) -> Any:
     """Turn a boolean-valued expression into a formula over atoms.
 
@@ -18,7 +51,7 @@ def bool_formula(expr: ast.AST | str, atom: Callable[[str, ast.AST], Any]) -> An
     """
     if isinstance(expr, str):
         expr = ast.parse(expr, mode="eval").body
-    e = expr
+    e = normalize_test(expr)
     if isinstance(e, ast.Constant) and isinstance(e.value, bool):
         return e.value
     if isinstance(e, ast.BoolOp):
